@@ -12,6 +12,8 @@ Definition amake (junk : Z -> cost) (n : Z) : list cost := map junk (zrange 0 n)
 Definition aget (a : list cost) (k : Z) : cost := if k <? 0 then Inf else nth (Z.to_nat k) a Inf.
 (* a[k] = v *)
 Definition aset (a : list cost) (k : Z) (v : cost) : list cost := upd a k v.
+(* for (x=a; x>b; x--): a, a-1, ..., b+1 *)
+Definition zdown (a b : Z) : list Z := rev (zrange (b + 1) (a + 1)).
 (* 0 <= k < n : the access is inside an array of n cells *)
 Definition inb (n k : Z) : bool := (0 <=? k) && (k <? n).
 (* s[k] for an input series (finite doubles = integers on the exact stream) *)
